@@ -215,7 +215,9 @@ func (cli *Client) handshake(c diam.Conn) (diam.Conn, error) {
 
 	var dwac chan struct{}
 	if cli.EnableWatchdog {
-		dwac = make(chan struct{})
+		// Buffered: the reader may see the DWA before the watchdog
+		// goroutine is back from writing the DWR and waits for it.
+		dwac = make(chan struct{}, 1)
 		cli.Handler.mux.Handle("DWA", handshakeOK(handleDWA(cli.Handler, dwac)))
 	}
 	for i := 0; i < (int(cli.MaxRetransmits) + 1); i++ {
@@ -297,6 +299,11 @@ func (cli *Client) watchdog(c diam.Conn, dwac chan struct{}) {
 
 func (cli *Client) dwr(c diam.Conn, osid uint32, dwac chan struct{}) {
 	m := cli.makeDWR(osid)
+	// Forget an answer that came after its round was over.
+	select {
+	case <-dwac:
+	default:
+	}
 	for i := 0; i < (int(cli.MaxRetransmits) + 1); i++ {
 		_, err := m.WriteToStream(c, cli.WatchdogStream)
 		if err != nil {
